@@ -65,6 +65,13 @@ def concretise(s, rnd):
     cls = s["cls"]
     if cls == "ok":
         line = _pad_path("gemini://%s/" % HOST, "", ll, rnd).encode()
+        inner = [c for c in s.get("cuts", ()) if 1024 <= c <= ll - 24]
+        if inner and rnd.random() < 0.7:
+            # an oversized line whose remainder after a cut point is itself a well-formed request line: whatever the
+            # server does with the first part, the rest must never be taken for a request
+            c = rnd.choice(inner)
+            head = ("gemini://%s/" % HOST + "a" * ll).encode()[:c]
+            line = head + _pad_path("gemini://%s/inner-" % HOST, "", ll - c, rnd).encode()
     elif cls == "badUtf8":
         base = _pad_path("gemini://%s/" % HOST, "", ll - 2, rnd).encode()
         line = base + rnd.choice([b"\xff\xfe", b"\xc3\x28", b"\xe2\x82", b"\x80\x80"])
